@@ -1,5 +1,6 @@
 import ClusterVerif.Spec.C16
 import Driver.Parse
+import ClusterVerif.Model.C16Seq
 /-!
 Case line (after the leading `C16`):
 
@@ -200,6 +201,10 @@ def answer (ws : List String) : String :=
       "propfail " ++ ",".intercalate (failed.map (·.1)) ++ " arm=" ++ arm i
     else if !ReqM.allowedReq Gen.ctxSites Gen.reqSites ReqM.genT i o then
       "diff arm=" ++ arm i ++ " model=" ++ showModel i
+    else if !Seq.allowedSeq Gen.pinSeq Gen.unpinSeq i o then
+      -- the statement order read from today's source (round 8c) predicts something else
+      "diff arm=" ++ arm i ++ " seq-model=" ++
+        (match Seq.runSeq Gen.pinSeq Gen.unpinSeq i with | none => "none" | some (m, _) => reprStr m.res)
     else "ok arm=" ++ arm i
 
 end CV.C16
